@@ -93,6 +93,11 @@ def gen_templates(rng, n):
             off += sz * max(arr, 1)
         t.size = max(4, (off + 3) // 4 * 4)
         out.append(t)
+    # the structure handle is a 16-bit attribute, nothing makes it unique: sometimes two different templates share one
+    plain = [t for t in out if not getattr(t, "is_string", False)]
+    if len(plain) >= 2 and rng.random() < 0.3:
+        a, b = rng.sample(plain, 2)
+        b.handle = a.handle
     # the two ends of the user-defined template id range [0x100, 0xEFF]
     users = [t for t in out if not getattr(t, "is_string", False)]
     used = {t.tid for t in out}
